@@ -212,7 +212,7 @@ def r5(ctx, R):
             idx = m.group(1)
     lv_ = [l.target.id for l in walk_no_nested(fn) if isinstance(l, ast.For) and ast.unparse(l.iter) == 'range(len(ld))' and isinstance(l.target, ast.Name)]
     dvar = lv_[0] if len(lv_) == 1 else '?'
-    want = sorted([('v', 'type(v) is not list'), (f'v[min({dvar}, len(v) - 1)]', 'type(v) is list')])
+    want = sorted([('v', 'type(v) is not list'), ('v[min(i1 - 1, len(v) - 1)]', 'type(v) is list')])
     if idx != 'i1 - 1':
         want = [('level dict must be indexed by the level loop variable', idx)]
     R.check(st == want, '__dict_to_list :: scalars shared, list entry min(level, len-1) (last entry repeats)', w, want, st)
